@@ -160,6 +160,32 @@ def _settings():
                         "field has an invalid value, and paths are unique per tree")
 
 
+def _suff():
+    from drivers import suff
+
+    def variants(tier, r, cin):
+        vs = list(suff.VARIANTS)
+        if cin["cls"] == "hourly":
+            vs = [v for v in vs if v.startswith("frame")]
+        return vs if tier == "thorough" else [r.choice(vs)]
+
+    return runner.PureSpec(
+        prop="C10", module="Suff", trace_module="SuffTrace", driver="drivers.suff",
+        cfg={"quick": "Suff_quick.cfg", "thorough": "Suff_thorough.cfg"}, sample={"quick": 1400, "thorough": 12000}, variants=variants,
+        spec_files=["Suff.tla", "SuffDefs.tla", "SuffTrace.tla", "Cal.tla"],
+        rule="TLC enumerates class x role x fuel x negatives x start date x span {250..420 incl. 328/329/365/366} x missing-usage and "
+             "missing-temperature day counts at each 90% threshold -1/0/+1 x placements (block, early block, spread); a seeded sample is realised as "
+             "real frames / series pairs (daily, billing: one row per day; hourly: 24 rows per day) in DST-free and DST zones; "
+             "non-trivial = the object carries a disqualification",
+        assumptions=["first and last day of the span are always valid (the statement does not define the span of a series whose edge days are missing)",
+                     "the last timestamp's period counts zero: a span of S days has S-1 countable days compared against 0.9*S (the statement's parenthesis)",
+                     "monthly rules: a verdict is demanded only where pooling months by number and by (year, month) agree",
+                     "exact-threshold cases are realised in DST-free zones (America/Phoenix, Asia/Kolkata); America/Chicago is used away from the thresholds",
+                     "billing usage gaps are not generated here (per-period usage is the Resample module's question)"],
+        invariants_note="MC config checks oracle self-consistency, Must within May, that each threshold sits exactly where the statement puts it, "
+                        "the 329-365 length rule and the validity of generated placements")
+
+
 class C06Entry:
     """C06 = Clock (hourly) + the row-per-timestamp and finiteness clauses of RowFrame (daily, billing)."""
 
@@ -194,7 +220,7 @@ class LifeEntry:
         return lifeprops.selftest(self.prop)
 
 
-_REG = {"C20": lambda: PureEntry(_window()), "C07": lambda: PureEntry(_rowframe("C07")), "C19": lambda: PureEntry(_agg()), "C06": lambda: C06Entry(), "C18": lambda: PureEntry(_seg()), "C14": lambda: PureEntry(_settings())}
+_REG = {"C20": lambda: PureEntry(_window()), "C07": lambda: PureEntry(_rowframe("C07")), "C19": lambda: PureEntry(_agg()), "C06": lambda: C06Entry(), "C18": lambda: PureEntry(_seg()), "C14": lambda: PureEntry(_settings()), "C10": lambda: PureEntry(_suff())}
 for _p in ("C01", "C02", "C03", "C04", "C05"):
     _REG[_p] = (lambda p: (lambda: LifeEntry(p)))(_p)
 
